@@ -179,7 +179,8 @@ def perform_call(m, entry, method, full_output, include_origin, x0, grid):
 
 
 def scale_for(ref):
-    mx = max(1.0, float(np.max(np.abs(ref))))
+    # TLC integers are 32 bit: a whole row is summed in the conservation clause, so bound the row sum
+    mx = max(1.0, float(np.max(np.abs(ref)))) * max(1, np.atleast_2d(ref).shape[1])
     return 10 ** int(math.floor(math.log10((2 ** 30) / mx)))
 
 
